@@ -43,7 +43,8 @@ def cases(ctx):
         mv = ["absent", "in-data", "not-in-data"][(k // (len(STORED) * len(DTYPES))) % 3]
         k += 1
         yield {"kind": "read", "shape": gen_shape(rng), "stored": stored, "dtype": dt, "mv": mv, "fill": rng.random() < 0.6, "rseed": rng.randrange(10 ** 9),
-               "flavour": rng.choice(["any", "any", "fuzzy-ok", "fuzzy-far", "nonneg"])}
+               "flavour": rng.choice(["any", "any", "fuzzy-ok", "fuzzy-far", "nonneg", "fuzzy-pad"]),
+               "marking": rng.choice(["_FillValue", "_FillValue", "missing_value", "valid_range", "valid_min_max"])}
     for i in range(ctx.n(400, 20000)):
         yield {"kind": "write", "shape": gen_shape(rng), "n": rng.randint(1, 4), "crs": rng.random() < 0.4, "rseed": rng.randrange(10 ** 9)}
 
@@ -109,6 +110,9 @@ def _gen_values(rng, n, stored, flavour):
     for _ in range(n):
         if flavour == "fuzzy-ok":
             v = rng.randint(-8, 8) / 8.0 if not integer else rng.choice([-1, 0, 1])
+        elif flavour == "fuzzy-pad":
+            # within one percent of the fuzzy range beyond its ends (rounding noise of an earlier tool)
+            v = rng.choice([1.015, -1.01, 1.02, 1.0000001, -1.0000001, 0.5, -0.75, 1.0, -1.0]) if not integer else rng.choice([-1, 0, 1])
         elif flavour == "fuzzy-far":
             v = rng.choice([-3.0, 2.5, 0.5, -0.25, 7.0]) if not integer else rng.choice([-3, 2, 0, 5])
         elif flavour == "nonneg":
@@ -148,10 +152,25 @@ def run_read(ctx, case):
         for i, e in enumerate(shape):
             ds.createDimension("d%d" % i, e)
             names.append("d%d" % i)
-        v = ds.createVariable("var", stored, tuple(names), fill_value=(-32000 if integer else -1e30) if case["fill"] else None)
-        a = numpy.ma.array(numpy.array(vals, dtype=stored).reshape(shape), mask=numpy.array(fillmask).reshape(shape))
-        v[:] = a
-    ctx.feature(("read", len(shape), stored, dt, mvclass, case["fill"], case["flavour"]))
+        marking = case.get("marking", "_FillValue") if case["fill"] else "_FillValue"
+        if marking == "_FillValue":
+            v = ds.createVariable("var", stored, tuple(names), fill_value=(-32000 if integer else -1e30) if case["fill"] else None)
+            a = numpy.ma.array(numpy.array(vals, dtype=stored).reshape(shape), mask=numpy.array(fillmask).reshape(shape))
+            v[:] = a
+        else:
+            # the file marks its missing cells through the missing_value attribute or a valid range, not through _FillValue
+            sentinel = -32000 if integer else -1e30
+            v = ds.createVariable("var", stored, tuple(names), fill_value=False)
+            raw = numpy.array([sentinel if m else x for x, m in zip(vals, fillmask)], dtype=stored).reshape(shape)
+            if marking == "missing_value":
+                v.missing_value = numpy.array(sentinel, dtype=stored)
+            elif marking == "valid_range":
+                v.valid_range = numpy.array([-31000 if integer else -1e29, 32000 if integer else 1e29], dtype=stored)
+            else:
+                v.valid_min = numpy.array(-31000 if integer else -1e29, dtype=stored)
+                v.valid_max = numpy.array(32000 if integer else 1e29, dtype=stored)
+            v[:] = raw
+    ctx.feature(("read", len(shape), stored, dt, mvclass, case["fill"], case["flavour"], marking))
     prog = arr.new_program(arr.NC_LIBS, working_dir=d)
     args = {"InFileName": path, "InFieldName": "var"}
     if dt:
@@ -214,7 +233,7 @@ def run_read(ctx, case):
         conv = int(round(sv)) if want_int else float(sv)
         want_missing = fillmask[i] or (mv is not None and conv == (int(mv) if want_int else float(mv)))
         if bool(rm[i]) != want_missing:
-            ctx.fail("%s:mask-%s" % (key, "valid-cell-masked" if rm[i] else "missing-cell-present"), {"cell": i, "stored": sv, "missing_value": mv, "fill_cell": fillmask[i]})
+            ctx.fail("%s:mask-%s%s" % (key, "valid-cell-masked" if rm[i] else "missing-cell-present", ":marked-by-" + marking if fillmask[i] and marking != "_FillValue" else ""), {"cell": i, "stored": sv, "missing_value": mv, "fill_cell": fillmask[i]})
             return
         if not want_missing:
             got = rd[i].item()
@@ -256,7 +275,7 @@ def run_write(ctx, case):
             a = numpy.ma.array(data, mask=numpy.zeros(shape, bool))
         else:
             a = numpy.ma.array(data, mask=numpy.array([rng.random() < 0.3 for _ in range(n)]).reshape(shape))
-        nm = "Res%d" % k
+        nm = ["Res0", "res0", "RES0", "Res3"][k] if case["rseed"] % 2 == 0 else "Res%d" % k        # names that differ only in letter case are different results
         arr.standin(prog, nm, a)
         names.append(nm)
         arrays.append(a)
